@@ -275,3 +275,47 @@ Example C05_srv6_guard_satisfiable :
   aget 1 (v_l (run6 k_demo ms)) = Some {| q_na := Some 11; q_pd := Some 20 |} /\
   aget 3 (f_alloc (v_p (run6 k_demo ms))) = Some 21.
 Proof. exact quiet_example. Qed.
+
+(* ---------- a CLUSTER of pool.PeerPool nodes (Model/PeerPools.v: every node a free-list pool, Allocate /
+   Release routed by the calling node's health view over the subscriber's rendezvous ranking, Get by the
+   static owner); conservation judged over ALL nodes.  Every history of calls entering at any node, every
+   sequence of health marks, any rankings, any universes without duplicates. ---------- *)
+From Verif Require Model.PeerPools Proofs.PeerPoolsProofs.
+
+(* whatever the routing does, every node's pool keeps the free-list invariant and conservation *)
+Theorem C05_peers_pools_conserved : forall univs rank ops, Forall (@NoDup N) univs ->
+  PeerPoolsProofs.AllInv (PeerPools.prun univs rank ops).
+Proof. exact PeerPoolsProofs.prun_inv. Qed.
+Print Assumptions C05_peers_pools_conserved.
+
+(* "a release puts the address back / every allocated address is held by a live subscriber": refuted on the
+   code as it is - the Release is routed under the PRESENT health view, not to the node that served the
+   Allocate (known finding K05h, marker 508) ... *)
+Theorem C05_peers_release_misrouted_refuted :
+  let univs := [[11; 12]; [21; 22]] in let rank := [(1, [1; 0])] in
+  let ops := [PeerPools.PAlloc 0 1; PeerPools.PHealth 0 1 false; PeerPools.PRelease 0 1] in
+  snd (fst (PeerPools.pstep (PeerPools.prun univs rank [PeerPools.PAlloc 0 1; PeerPools.PHealth 0 1 false]) (PeerPools.PRelease 0 1))) = OOk /\
+  PeerPools.pp_live (PeerPools.prun univs rank ops) = [] /\
+  aget 1 (f_alloc (PeerPools.node (PeerPools.prun univs rank ops) 1)) = Some 21 /\
+  PeerPoolsProofs.pquiet univs rank ops = false.
+Proof. exact PeerPoolsProofs.release_misrouted_refuted. Qed.
+Print Assumptions C05_peers_release_misrouted_refuted.
+
+(* ... and proved under the decidable guard [pquiet] (no Release leaves an allocation behind, no Allocate is
+   served while another node holds one for the subscriber): every allocation on EVERY node belongs to a
+   subscriber that was told an address and has not released since - a released subscriber holds nothing anywhere *)
+Theorem C05_peers_allocated_has_live_holder_partial : forall univs rank ops, Forall (@NoDup N) univs ->
+  PeerPoolsProofs.pquiet univs rank ops = true ->
+  forall f, In f (PeerPools.pp_nodes (PeerPools.prun univs rank ops)) -> forall h u,
+    aget h (f_alloc f) = Some u -> In h (PeerPools.pp_live (PeerPools.prun univs rank ops)).
+Proof. exact PeerPoolsProofs.pquiet_held. Qed.
+Print Assumptions C05_peers_allocated_has_live_holder_partial.
+
+Example C05_peers_guard_satisfiable :
+  let univs := [[11; 12]; [21; 22]] in let rank := [(1, [1; 0]); (2, [0; 1])] in
+  let ops := [PeerPools.PAlloc 0 1; PeerPools.PAlloc 1 2; PeerPools.PRelease 1 1; PeerPools.PHealth 0 1 false;
+              PeerPools.PAlloc 0 1; PeerPools.PRelease 0 1; PeerPools.PHealth 0 1 true; PeerPools.PAlloc 1 1] in
+  PeerPoolsProofs.pquiet univs rank ops = true /\ PeerPools.pp_live (PeerPools.prun univs rank ops) = [1; 2] /\
+  aget 1 (f_alloc (PeerPools.node (PeerPools.prun univs rank ops) 1)) = Some 22 /\
+  aget 2 (f_alloc (PeerPools.node (PeerPools.prun univs rank ops) 0)) = Some 11.
+Proof. exact PeerPoolsProofs.pquiet_example. Qed.
